@@ -47,7 +47,72 @@ def sut_chebyshev_reuse(X, y):
     return buf
 
 
+_TOPS = {}
+
+
+def top_for(n_atoms):
+    import mdtraj as md
+    if n_atoms not in _TOPS:
+        top = md.Topology()
+        res = top.add_residue('ALA', top.add_chain())
+        for i in range(n_atoms):
+            top.add_atom('C%d' % i, md.element.carbon, res)
+        _TOPS[n_atoms] = top
+    return _TOPS[n_atoms]
+
+
+def as_traj(X):
+    """(n, atoms, 3) or (atoms, 3) coordinates as a fresh md.Trajectory"""
+    import mdtraj as md
+    X = np.asarray(X)
+    if X.ndim == 2:
+        X = X[None]
+    return md.Trajectory(np.array(X, dtype=np.float32), top_for(X.shape[1]))
+
+
+def m_rmsd(X, y):
+    """the model of the 'rmsd' metric is mdtraj's own routine on the whole data set (a trusted dependency, like NumPy);
+    a frame's value depends in the last bits on the batch it is evaluated in - see rmsd_noise"""
+    import mdtraj as md
+    return md.rmsd(as_traj(X), as_traj(y)).astype(np.float64)
+
+
+RMSD_DELTA = 4e-6
+
+
+def rmsd_noise(d):
+    """how far two float32 evaluations of the same RMSD may differ: the mean squared deviation is a difference of O(1)
+    terms with an absolute error of a few 1e-7 (coordinates in [0, 1) nm), so the error of its root is delta / 2d for
+    ordinary values and up to sqrt(delta) around zero (a frame against itself comes out as 0 .. 4e-4)"""
+    d = np.asarray(d, dtype=np.float64)
+    return np.sqrt(d * d + RMSD_DELTA) - d
+
+
+def no_noise(d):
+    return np.zeros_like(np.asarray(d, dtype=np.float64))
+
+
+def frame_equal(metric_name, c, x):
+    """is the reported centre `c` the frame `x`?  Bit for bit - except for RMSD data, where mdtraj's rmsd moves every frame it
+    touches to its centroid in place, so a centre is the frame up to that translation"""
+    c = np.asarray(c)
+    x = np.asarray(x)
+    if c.size != x.size:
+        return False
+    c = c.reshape(x.shape)
+    if metric_name != 'rmsd':
+        return bool(np.array_equal(c, x))
+    c = c.astype(np.float64)
+    x = x.astype(np.float64)
+    return bool(np.allclose(c - c.mean(axis=0), x - x.mean(axis=0), rtol=0, atol=4e-6))
+
+
+def noise_for(metric_name):
+    return rmsd_noise if metric_name == 'rmsd' else no_noise
+
+
 METRICS = {
+    'rmsd': m_rmsd,
     'euclidean': m_euclid,
     'manhattan': m_manhattan,
     'callable': m_chebyshev,
@@ -177,7 +242,7 @@ class Greedy:
         return c
 
 
-def greedy_run(X, metric, n_clusters, cutoff, init=None, tol=1e-6, cut_tol=None):
+def greedy_run(X, metric, n_clusters, cutoff, init=None, tol=1e-6, cut_tol=None, noise=no_noise):
     """Replay k-centers.  Returns (Greedy, tie_free) where tie_free says that
     every choice and every stopping decision was unambiguous beyond `tol`."""
     g = Greedy(X, metric, init)
@@ -188,13 +253,14 @@ def greedy_run(X, metric, n_clusters, cutoff, init=None, tol=1e-6, cut_tol=None)
     ct = tol if cut_tol is None else cut_tol
 
     def near_cut(r):
-        return cutoff > 0 and abs(r - cutoff) <= ct * max(cutoff, r, 1e-300)
+        return cutoff > 0 and abs(r - cutoff) <= ct * max(cutoff, r, 1e-300) + float(noise(r))
 
     if near_cut(g.radii[-1]):
         tie_free = False
     while len(g.centers) < n_clusters and g.radii[-1] > cutoff and len(g.centers) < len(X):
         _, gap = g.next_margin()
-        if gap <= tol:
+        top = float(g.d.max())
+        if gap <= tol or gap * top <= 2 * float(noise(top * (1 - gap))):
             tie_free = False
         g.step()
         if near_cut(g.radii[-1]):
@@ -235,7 +301,7 @@ def check_consistent(X, metric_name, center_indices, centers, labels, distances,
         bad('center_count_mismatch', '%d centre coordinates for %d centre indices' % (len(centers), k))
     for i in range(k):
         c = np.asarray(centers[i])
-        if c.shape != X[ci[i]].shape or not np.array_equal(c, X[ci[i]]):
+        if c.shape != X[ci[i]].shape or not frame_equal(metric_name, c, X[ci[i]]):
             bad('center_not_frame', 'centre %d != frame at its index %d: %s vs %s' % (i, ci[i], c, X[ci[i]]))
     labels = np.asarray(labels)
     distances = np.asarray(distances)
@@ -249,13 +315,14 @@ def check_consistent(X, metric_name, center_indices, centers, labels, distances,
     own = D[labels, np.arange(n)]
     scale = np.maximum(np.abs(own), 1e-300)
     err = np.abs(distances - own)
-    tol = rtol * np.maximum(scale, D.max() if D.size else 1.0)
+    noise = noise_for(metric_name)
+    tol = rtol * np.maximum(scale, D.max() if D.size else 1.0) + noise(own)
     if np.any(err > tol):
         f = int(np.argmax(err - tol))
         bad('distance_mismatch', 'frame %d: reported %.17g, metric to its centre %d (frame %d) is %.17g' %
             (f, distances[f], labels[f], ci[labels[f]], own[f]))
     closer = D.min(axis=0)
-    slack = rtol * np.maximum(D.max(), 1.0) * 4
+    slack = rtol * np.maximum(D.max(), 1.0) * 4 + noise(closer) + noise(own)
     if np.any(closer < own - slack):
         f = int(np.argmax(own - closer))
         bad('not_nearest', 'frame %d assigned to centre %d at %.17g but centre %d is at %.17g' %
@@ -266,7 +333,7 @@ def check_consistent(X, metric_name, center_indices, centers, labels, distances,
             if allow_dup_centers and ci[labels[ci[i]]] == ci[i]:
                 continue
             bad('center_label', 'centre %d (frame %d) carries label %d' % (i, ci[i], labels[ci[i]]))
-        if distances[ci[i]] != 0:
+        if distances[ci[i]] != 0 and not (metric_name == 'rmsd' and 0 <= distances[ci[i]] <= float(rmsd_noise(0.0))):
             bad('center_distance', 'centre %d (frame %d) has distance %.17g' % (i, ci[i], distances[ci[i]]))
     if sut_callable is not None:
         # exact recomputation with the very metric the library used
